@@ -60,7 +60,13 @@ class Lines:
         return ln
 
 
-def run_tracker(lines):
+def _warn_error(msg, *a, **k):
+    # the tracker process inherits the client's warning filters: under -W error / PYTHONWARNINGS=error every
+    # warnings.warn() call raises
+    raise UserWarning(msg)
+
+
+def run_tracker(lines, werr=False):
     """Run the real main() on the given pipe content.  Returns (deleted, pipe)."""
     import joblib.externals.loky.backend.resource_tracker as rt
     deleted = []
@@ -72,7 +78,7 @@ def run_tracker(lines):
     rt.signal = types.SimpleNamespace(signal=lambda *a: None, SIGINT=2, SIGTERM=15, SIG_IGN=1, SIG_UNBLOCK=1,
                                       pthread_sigmask=lambda *a: None)
     rt.open = lambda fd, mode: pipe
-    rt.warnings = types.SimpleNamespace(warn=lambda *a, **k: None)
+    rt.warnings = types.SimpleNamespace(warn=_warn_error if werr else (lambda *a, **k: None))
     rt._CLEANUP_FUNCS["file"] = lambda name: deleted.append(("file", name))
     rt._CLEANUP_FUNCS["folder"] = lambda name: deleted.append(("folder", name))
     try:
@@ -117,13 +123,17 @@ def _line(c, n, t):
     return ("%s:%s:%s\n" % (cmd, NAMES[n], TYPES[t])).encode("ascii"), (cmd, NAMES[n], TYPES[t])
 
 
-def _check_seq(triples):
+def _check_seq(triples, werr=False):
     lines, reqs = [], []
     for c, n, t in triples:
         ln, rq = _line(c, n, t)
         lines.append(ln)
         reqs.append(rq)
-    got, pipe = run_tracker(lines)
+    try:
+        got, pipe = run_tracker(lines, werr)
+    except Exception as e:
+        H.note("the tracker died with %s: %s (warnings as errors: %r); requests: %r" % (type(e).__name__, e, werr, lines))
+        return False
     out, rest_files, rest_folders = model(reqs)
     k = len(out)
     ok = True
@@ -161,7 +171,7 @@ def ob_seq(c0: int, n0: int, t0: int, c1: int, n1: int, t1: int, c2: int, n2: in
         return H.verdict(_check_seq(triples))
 
 
-def ob_induct(ka: int, kd: int, ta: int, c: int, n: int, t: int) -> bool:
+def ob_induct(ka: int, kd: int, ta: int, c: int, n: int, t: int, werr: bool) -> bool:
     """
     pre: 0 <= ka <= 3 and 0 <= kd <= 3
     pre: 0 <= ta <= 1
@@ -173,8 +183,9 @@ def ob_induct(ka: int, kd: int, ta: int, c: int, n: int, t: int) -> bool:
     step = (H.select(c, 0, 6), H.select(n, 0, 1), H.select(t, 0, 2))
     # pre-state: name a registered ka times with type ta, name d registered kd times as a folder
     triples = [(0, 0, ta)] * ka + [(0, 1, 1)] * kd + [step]
+    we = bool(werr)                      # the client runs with warnings turned into errors, or not
     with H.native():
-        return H.verdict(_check_seq(triples))
+        return H.verdict(_check_seq(triples, we))
 
 
 def ob_counts(k_reg: int, k_unlink: int, folder: bool) -> bool:
@@ -282,7 +293,7 @@ def obligations(tier, seed):
                         "params": {"L": 3, "first": first}, "timeout": 600,
                         "bounds": "3 requests (first = %s) then EOF" % CMDS[first]})
     obs.append({"name": "induct", "fn": "ob_induct", "mode": "S", "timeout": 300,
-                "bounds": "pre-state refcounts 0..3 for two names (file/folder), one arbitrary request, EOF"})
+                "bounds": "pre-state refcounts 0..3 for two names (file/folder), one arbitrary request, EOF; warnings raise (-W error) or not"})
     obs.append({"name": "counts", "fn": "ob_counts", "mode": "T", "timeout": 300,
                 "bounds": "0..6 registrations then 0..8 maybe_unlink requests of one file/folder (counts symbolic, loop traced)"})
     obs.append({"name": "names", "fn": "ob_names", "mode": "S", "timeout": 300,
